@@ -718,3 +718,156 @@ Definition C02_full_statement_tokens : Prop :=
   forall (Ucls : N -> ucls) (cfg : pcfg) (e1 e2 : N) (s : str),
     In e1 ext_sets -> In e2 ext_sets -> core_source Ucls s = true ->
     events Ucls (with_ext cfg e1) s = events Ucls (with_ext cfg e2) s.
+
+(* ---- the gates of the source ----
+   The theorems above are about the gates of the MODELS ([has X_..] in Model/Parser.v, [x_modes] / [x_inline] /
+   [x_advanced] in Model/Analysis.v).  That the Rust code has no other gate is tied to the source here:
+   1. Gen/GateSites.v is REGENERATED from the non-test code of /repo/src/**/*.rs on every run of the check
+      (gen/gen_gates.py, token level): every place where an Extensions value is consulted (.extension(..),
+      .contains(..), a variable bound to such a test and each statement using it), handed on (argument of a
+      call, field of a struct literal), declared (field, parameter, return type, impl) or constructed (the
+      bitflags! constants, Extensions::all() / empty()), as (file below src/, enclosing fn or item, flag
+      names, normalised text), sorted, NO line numbers.  [C02_gate_inventory] pins the list: a new gate, a
+      different flag at an existing gate, a new way of handing the set on or a changed constant breaks it
+      (the check reports the difference entry by entry); moving code does not.
+   2. Model/GateMap.v [table] has one row per entry ([C02_gate_inventory_mapped]) naming the Gallina function
+      and flag test that renders it (the function itself is carried as a witness), or why the entry decides
+      nothing (Carrier / NotAGate); [C02_gate_table_checks]: Gate rows name flags of Gen/ExtBits.v that the
+      entry's text mentions, a parser / analysis entry mentioning a flag is a Gate row, and each of the eight
+      flags has a Gate row in the parser or the analysis.
+   These three are finite statements about regenerated data (closed by computation), in the manner of
+   C04_label_inventory and C18_inventory. *)
+From CL Require Gen.GateSites Model.GateMap.
+From Coq Require String.
+Import String.StringSyntax.
+Local Open Scope string_scope.
+Theorem C02_gate_inventory :
+  GateSites.sites = [
+    ("analysis/event_consumer", "RecipeCollector::in_step", ["INLINE_QUANTITIES"],
+     "self.extensions.contains(Extensions::INLINE_QUANTITIES)");
+    ("analysis/event_consumer", "RecipeCollector::ingredient", ["ADVANCED_UNITS"],
+     "self.extensions.contains(Extensions::ADVANCED_UNITS)");
+    ("analysis/event_consumer", "RecipeCollector::metadata", ["MODES"],
+     "self.extensions.contains(Extensions::MODES)");
+    ("analysis/event_consumer", "RecipeCollector::timer", ["ADVANCED_UNITS"],
+     "self.extensions.contains(Extensions::ADVANCED_UNITS)");
+    ("analysis/event_consumer", "parse_events", [],
+     "RecipeCollector{extensions}");
+    ("analysis/event_consumer", "parse_events", [],
+     "fn(extensions: Extensions)");
+    ("analysis/event_consumer", "struct RecipeCollector", [],
+     "extensions: Extensions");
+    ("lib", "-", [],
+     "impl Default for Extensions");
+    ("lib", "CooklangParser::canonical", ["empty()"],
+     "Self::new(#0: Extensions::empty())");
+    ("lib", "CooklangParser::extended", ["all()"],
+     "Self::new(#0: Extensions::all())");
+    ("lib", "CooklangParser::extensions", [],
+     "fn() -> Extensions");
+    ("lib", "CooklangParser::extensions", [],
+     "self.extensions");
+    ("lib", "CooklangParser::new", [],
+     "Self{extensions}");
+    ("lib", "CooklangParser::new", [],
+     "fn(extensions: Extensions)");
+    ("lib", "CooklangParser::parse_metadata_with_options", [],
+     "analysis::parse_events(#2: self.extensions)");
+    ("lib", "CooklangParser::parse_metadata_with_options", [],
+     "parser::PullParser::new(#1: self.extensions)");
+    ("lib", "CooklangParser::parse_with_options", [],
+     "analysis::parse_events(#2: self.extensions)");
+    ("lib", "CooklangParser::parse_with_options", [],
+     "parser::PullParser::new(#1: self.extensions)");
+    ("lib", "Extensions::default", ["all()"],
+     "Self::all()");
+    ("lib", "Extensions::default", [],
+     "fn() -> Self");
+    ("lib", "bitflags!", ["ADVANCED_UNITS"],
+     "const ADVANCED_UNITS = 1 << 5");
+    ("lib", "bitflags!", ["COMPAT"; "COMPONENT_MODIFIERS"; "COMPONENT_ALIAS"; "ADVANCED_UNITS"; "MODES"; "INLINE_QUANTITIES"; "RANGE_VALUES"; "INTERMEDIATE_PREPARATIONS"],
+     "const COMPAT = Self::COMPONENT_MODIFIERS.bits() | Self::COMPONENT_ALIAS.bits() | Self::ADVANCED_UNITS.bits() | Self::MODES.bits() | Self::INLINE_QUANTITIES.bits() | Self::RANGE_VALUES.bits() | Self::INTERMEDIATE_PREPARATIONS.bits()");
+    ("lib", "bitflags!", ["COMPONENT_ALIAS"],
+     "const COMPONENT_ALIAS = 1 << 3");
+    ("lib", "bitflags!", ["COMPONENT_MODIFIERS"],
+     "const COMPONENT_MODIFIERS = 1 << 1");
+    ("lib", "bitflags!", ["INLINE_QUANTITIES"],
+     "const INLINE_QUANTITIES = 1 << 7");
+    ("lib", "bitflags!", ["INTERMEDIATE_PREPARATIONS"; "COMPONENT_MODIFIERS"],
+     "const INTERMEDIATE_PREPARATIONS = 1 << 11 | Self::COMPONENT_MODIFIERS.bits()");
+    ("lib", "bitflags!", ["MODES"],
+     "const MODES = 1 << 6");
+    ("lib", "bitflags!", ["RANGE_VALUES"],
+     "const RANGE_VALUES = 1 << 9");
+    ("lib", "bitflags!", ["TIMER_REQUIRES_TIME"],
+     "const TIMER_REQUIRES_TIME = 1 << 10");
+    ("lib", "bitflags!", [],
+     "struct Extensions: u32");
+    ("lib", "struct CooklangParser", [],
+     "extensions: Extensions");
+    ("parser/block_parser", "BlockParser::extension", [],
+     "fn(ext: Extensions)");
+    ("parser/block_parser", "BlockParser::extension", [],
+     "self.extensions.contains(ext)");
+    ("parser/block_parser", "BlockParser::new", [],
+     "Self{extensions}");
+    ("parser/block_parser", "BlockParser::new", [],
+     "fn(extensions: Extensions)");
+    ("parser/block_parser", "struct BlockParser", [],
+     "extensions: Extensions");
+    ("parser/mod", "PullParser::new", [],
+     "Self{extensions}");
+    ("parser/mod", "PullParser::new", [],
+     "Self{extensions}");
+    ("parser/mod", "PullParser::new", [],
+     "fn(extensions: Extensions)");
+    ("parser/mod", "PullParser::next_block", [],
+     "BlockParser::new(#3: self.extensions)");
+    ("parser/mod", "PullParser::next_metadata_block", [],
+     "BlockParser::new(#3: self.extensions)");
+    ("parser/mod", "parse_block", ["MODES"],
+     "let modes_active = bp.extension(Extensions::MODES)");
+    ("parser/mod", "parse_block", ["MODES"],
+     "use modes_active: (is_config_key && modes_active) || old_style_metadata");
+    ("parser/mod", "struct PullParser", [],
+     "extensions: Extensions");
+    ("parser/quantity", "parse_quantity", [],
+     "BlockParser::new(#3: bp.extensions)");
+    ("parser/quantity", "parse_quantity", ["ADVANCED_UNITS"],
+     "bp2.extension(Extensions::ADVANCED_UNITS)");
+    ("parser/quantity", "range_value", ["RANGE_VALUES"],
+     "!bp.extension(Extensions::RANGE_VALUES)");
+    ("parser/step", "check_alias", ["COMPONENT_ALIAS"],
+     "!bp.extension(Extensions::COMPONENT_ALIAS)");
+    ("parser/step", "modifiers", ["COMPONENT_MODIFIERS"],
+     "!bp.extension(Extensions::COMPONENT_MODIFIERS)");
+    ("parser/step", "modifiers", ["INTERMEDIATE_PREPARATIONS"],
+     "bp.extension(Extensions::INTERMEDIATE_PREPARATIONS)");
+    ("parser/step", "parse_alias", ["COMPONENT_ALIAS"],
+     "bp.extension(Extensions::COMPONENT_ALIAS)");
+    ("parser/step", "parse_modifiers", ["INTERMEDIATE_PREPARATIONS"],
+     "bp.extension(Extensions::INTERMEDIATE_PREPARATIONS)");
+    ("parser/step", "timer", ["TIMER_REQUIRES_TIME"],
+     "bp.extension(Extensions::TIMER_REQUIRES_TIME)")
+  ].
+Proof. reflexivity. Qed.
+Local Close Scope string_scope.
+Print Assumptions C02_gate_inventory.
+
+(* one row of the rendering table per inventory entry, in the same order *)
+Theorem C02_gate_inventory_mapped : map fst GateMap.table = GateSites.sites.
+Proof. exact GateMap.table_covers_inventory. Qed.
+Print Assumptions C02_gate_inventory_mapped.
+
+Theorem C02_gate_table_checks :
+  (forall row, In row GateMap.table ->
+     match snd row with
+     | GateMap.Gate f _ _ => In f (map fst GateMap.flags) /\ In f (GateMap.site_flags (fst row))
+     | _ => True
+     end) /\
+  (forall row, In row GateMap.table -> GateMap.in_stage (fst row) = true -> GateMap.site_flags (fst row) <> [] ->
+     GateMap.is_gate (snd row) = true) /\
+  (forall f, In f (map fst GateMap.flags) ->
+     exists row, In row GateMap.table /\ GateMap.in_stage (fst row) = true /\ GateMap.is_gate_for f (snd row) = true).
+Proof. exact GateMap.table_checks_spec. Qed.
+Print Assumptions C02_gate_table_checks.
